@@ -17,8 +17,7 @@ import AtreeProofs.Props.C07World
     content of every live container (every inlined child at every depth is part of the decoded slab
     of its host), and no register for anything else.
 
-  Hypotheses: the side conditions of `Props/C07World.lean` on the FINAL world (`LeafOk`, `SideAt`,
-  64-bit digests) — they make every pending slab encodable (`NoEncodeFailure` is DERIVED, not
+  Hypotheses: the side conditions of `Props/C07World.lean` on the FINAL world (`LeafOk`, `SideAt`) — they make every pending slab encodable (`NoEncodeFailure` is DERIVED, not
   assumed) — and `DeepSteps D`: the deep account of every request ("a slab whose embedded child changed
   was stored"), which is `Props/C10Deep.lean`.
 -/
@@ -28,7 +27,7 @@ open Atree Atree.Codec Gen World St C10Persist WC C07W
 /-- every pending slab encodes: derived from the invariant and the side conditions of the world -/
 theorem no_encode_failure {D : SlabID → DigestFn 4} (hdeep : DeepSteps D) {w : World} {cx : Ctx}
     {s : St Slab (SlabID × Bytes)} (h : HistB D w cx s)
-    (L : LeafOk w cx.ctr) (hD : ∀ x p, ∀ h ∈ (D x).dg p, h < 2 ^ 64) (hside : ∀ id, SideAt w id) :
+    (L : LeafOk w cx.ctr) (hside : ∀ id, SideAt w id) :
     NoEncodeFailure worldCodec s := by
   obtain ⟨hrep, _, hund⟩ := histB_rep hdeep h
   obtain ⟨H, Hh, _⟩ := C09W.world_heap_exact D w cx h.hist
@@ -37,14 +36,14 @@ theorem no_encode_failure {D : SlabID → DigestFn 4} (hdeep : DeepSteps D) {w :
     intro e; rw [e, hund] at hv; cases hv
   have hview : s.view worldCodec id = some v := view_of_deltas worldCodec s id (some v) hv
   rw [hrep id hne] at hview
-  obtain ⟨ok, _⟩ := worldOk_codec_ok D w cx.ctr H Hh L hD id v hview (hside id)
+  obtain ⟨ok, _⟩ := worldOk_codec_ok D w cx.ctr H Hh L id v hview (hside id)
   rw [worldCodec_enc_of_ok v ok]
   rfl
 
 /-- THE BYTE-LEVEL COMMIT / REOPEN THEOREM FOR NESTED CONTAINERS. -/
 theorem world_bytes_commit_reopen {D : SlabID → DigestFn 4} (hdeep : DeepSteps D) {w : World} {cx : Ctx}
     {s : St Slab (SlabID × Bytes)} (h : HistB D w cx s)
-    (L : LeafOk w cx.ctr) (hD : ∀ x p, ∀ h ∈ (D x).dg p, h < 2 ^ 64) (hside : ∀ id, SideAt w id)
+    (L : LeafOk w cx.ctr) (hside : ∀ id, SideAt w id)
     (kind : CommitKind) (mo dlo : List SlabID) :
     (St.step worldCodec s (.commit kind [] mo dlo)).2 = .unit ∧
     let reopened := St.run worldCodec s [.commit kind [] mo dlo, .recreate]
@@ -59,7 +58,7 @@ theorem world_bytes_commit_reopen {D : SlabID → DigestFn 4} (hdeep : DeepSteps
         | _ => none) = w.toCodec id) ∧
     (∀ id, id.isTemp = false → ((AList.find? reopened.base id).isSome ↔ (w.slabAt id).isSome)) := by
   obtain ⟨hrep, hI, _⟩ := histB_rep hdeep h
-  have hne := no_encode_failure hdeep h L hD hside
+  have hne := no_encode_failure hdeep h L hside
   obtain ⟨k1, k2⟩ := rep_commit_reopen worldCodec worldCodec_roundTrip s _ hrep hI hne kind mo dlo
   refine ⟨k1, ?_⟩
   intro reopened
